@@ -91,9 +91,15 @@ fn bad_symbol(t: &mut Tape, enc: &RefEnc) -> (Sym, &'static str) {
     if enc.state >= 7 && (m.reps[0] as u64 + 1) > lim {
         cands.push((Sym::Lit(t.byte()), "literal in matched mode with rep0 beyond the window"));
     }
-    // prefer the rarer kinds when present
-    let i = if cands.len() > 6 && t.below(2) == 1 {
-        6 + t.below(cands.len() as u64 - 6) as usize
+    // prefer the rarer kinds (everything that is not a plain far match) when present
+    let rare: Vec<usize> = (0..cands.len())
+        .filter(|i| !matches!(cands[*i].0, Sym::Match { .. }))
+        .collect();
+    let lit = (0..cands.len()).find(|i| matches!(cands[*i].0, Sym::Lit(_)));
+    let i = if lit.is_some() && t.below(2) == 0 {
+        lit.unwrap()
+    } else if !rare.is_empty() && t.below(3) != 0 {
+        rare[t.below(rare.len() as u64) as usize]
     } else {
         t.below(cands.len() as u64) as usize
     };
@@ -224,6 +230,13 @@ fn gen(t: &mut Tape, _tier: Tier) -> Scenario {
                 w.begin_lzma_chunk(reset, Some(gen::draw_props(t, true)));
                 let target = t.range(1, 200);
                 gen::gen_program(t, &cfg, &mut w.enc, target, 4000, &mut ps);
+                if t.below(2) == 0 && w.enc.model.avail() >= 2 {
+                    // end the chunk in a match state with a far rep0, so that a later
+                    // chunk that keeps the state (after a dictionary reset) inherits a
+                    // distance pointing before the reset
+                    let far = w.enc.model.avail() as u32;
+                    let _ = w.enc.encode(Sym::Match { dist: far, len: 2 });
+                }
                 if w.enc.model.out.len() == 0 || !w.end_lzma_chunk(reset, ts) {
                     let _ = w.enc.encode(Sym::Lit(1));
                     w.end_lzma_chunk(reset, ts);
@@ -234,7 +247,7 @@ fn gen(t: &mut Tape, _tier: Tier) -> Scenario {
         }
         // optional uncompressed chunk with dictionary reset right before the
         // bad chunk: inherited state/reps then point before the reset
-        let inherit = props_set && t.below(3) == 0;
+        let inherit = props_set && t.below(2) == 0;
         if inherit {
             let n = t.range(1, 8) as usize;
             let data = gen::draw_bytes(t, n);
@@ -253,7 +266,7 @@ fn gen(t: &mut Tape, _tier: Tier) -> Scenario {
         let ts = w.enc.trace.len();
         let newp = if reset >= 2 { Some(gen::draw_props(t, true)) } else { None };
         w.begin_lzma_chunk(reset, newp);
-        let target = if inherit && reset == 0 { t.below(3) } else { t.below(120) };
+        let target = if inherit && reset == 0 { t.below(4).saturating_sub(1) } else { t.below(120) };
         gen::gen_program(t, &cfg, &mut w.enc, target, 4000, &mut ps);
         let expect = w.enc.model.out.clone();
         let (bad, why) = bad_symbol(t, &w.enc);
